@@ -286,6 +286,23 @@ func c20Handwritten() c20Type {
 		1+8+(16+3)+(8+4)+(16+16+1)+(8+(16+1)+8+(16+2)+8)+(24+12), "all-unexported struct, filled")
 	add(&c20Unexp{a: 1}, 8+1+8+16+8+16+8+24, "pointer to unexported struct")
 	add([]interface{}{c20MyInt(1), nil, &i32, c20Emb{5}}, 24+(16+8)+16+(16+8+4)+(16+4), "[]interface{} of named values")
+	// embedded structs and blank fields
+	add(c20Shadow{c20Base{"abc", 7}, "xy"}, (16+3)+4+(16+2), "embedded struct whose field Name is hidden by an outer field Name")
+	add(c20Both{c20Left{1, 2}, c20Right{3, 4}, 5}, (1+4)+(8+1)+1, "two embedded structs with the same field name Tag (ambiguous selector)")
+	add(c20Blanks{A: 1, B: 2}, 1+7+8+56, "struct with two blank (_) fields")
+	add(struct {
+		A int8
+		_ int32
+	}{A: 1}, 1+4, "struct with one blank field")
+	add(c20EmbPtr{&c20Base{"q", 1}, 2}, (8+(16+1)+4)+1, "embedded pointer to a struct")
+	add(c20EmbPtr{nil, 2}, 8+1, "embedded nil pointer")
+	add(c20EmbIface{c20Err("boom"), 2}, (16+(16+4))+1, "embedded interface holding a named string")
+	add(c20EmbIface{nil, 2}, 16+1, "embedded nil interface")
+	add(c20EmbNamed{3, "four"}, 8+(16+4), "embedded named int and named string")
+	add(c20Deep{c20Shadow{c20Base{"a", 1}, "bb"}, c20Both{c20Left{1, 2}, c20Right{3, 4}, 5}, 9}, ((16+1)+4+(16+2))+((1+4)+(8+1)+1)+2, "two levels of embedding with hidden and ambiguous names, outer field N hiding c20Base.N")
+	add([]c20Shadow{{c20Base{"abc", 7}, "xy"}, {}}, 24+((16+3)+4+(16+2))+(16+4+16), "slice of structs with a hidden promoted field")
+	add(map[string]c20Both{"k": {c20Left{1, 2}, c20Right{3, 4}, 5}}, 8+(16+1)+((1+4)+(8+1)+1), "map value with ambiguous embedded fields")
+	add(&c20Blanks{}, 8+72, "pointer to a struct with two blank fields")
 	// maps whose keys are composite and differ in structural size among themselves (a key type's top-level
 	// kind says nothing about what the keys hold): struct and array keys with strings inside, interface keys
 	add(map[c20HostPort]int8{{"a", 1}: 1, {"hello", 2}: 2, {"a-longer-host", 3}: 3},
@@ -336,6 +353,57 @@ func c20Handwritten() c20Type {
 	}{arr, &arr[0]}, (8+24)+(8+8), "struct{a *[3]int64; e *int64} with e = &a[0]")
 	return t
 }
+
+// embedding: promoted fields hidden by a shallower field of the same name, ambiguous (same name at the
+// same depth in two embedded structs), blank fields, embedded pointers / interfaces / named scalars -
+// every one of them is a PART of the struct whatever the selector rules say about its name
+type c20Base struct {
+	Name string
+	N    int32
+}
+type c20Shadow struct {
+	c20Base
+	Name string
+}
+type c20Left struct {
+	Tag int8
+	A   int32
+}
+type c20Right struct {
+	Tag int64
+	B   int8
+}
+type c20Both struct {
+	c20Left
+	c20Right
+	X int8
+}
+type c20Blanks struct {
+	A int8
+	_ [7]byte
+	B int64
+	_ [56]byte
+}
+type c20EmbPtr struct {
+	*c20Base
+	K int8
+}
+type c20EmbIface struct {
+	error
+	K int8
+}
+type c20EmbNamed struct {
+	c20MyInt
+	c20MyStr
+}
+type c20Deep struct {
+	c20Shadow
+	c20Both
+	N int16
+}
+type c20Err string
+
+func (e c20Err) Error() string { return string(e) }
 
 type c20HostPort struct {
 	Host string
